@@ -276,6 +276,7 @@ func c04Corpus(e *env) []*c04Unit {
 	add(mk("J6-quote", " * @param s\n", "{$s}", data.Map{"s": data.String("q\"q")}))
 	add(mk("J7-print-list", " * @param l\n", "{$l}", data.Map{"l": data.List{data.Int(1), data.Int(2)}}))
 	add(mk("I11-float", " * @param a\n", "{$a * 1}{1000000.5}", data.Map{"a": data.Float(1500000.5)}))
+	add(mk("name-collision", "", "{let $x1: 'A' /}{let $a: 2 /}{let $b: 3 /}{let $c: 4 /}{let $d: 5 /}{let $e: 6 /}{let $f: 7 /}{let $g: 8 /}{let $h: 9 /}{let $i: 10 /}{let $x: 'B' /}{$a}{$b}{$c}{$d}{$e}{$f}{$g}{$h}{$i}{$x1}{$x}", data.Map{}))
 	add(mk("scoping-param-shadow", " * @param x\n", "{let $y: $x + 1 /}{let $x: $y + 1 /}{$x}{$y}", data.Map{"x": data.Int(1)}))
 	add(mk("switch", " * @param x\n", "{switch $x}{case 1, 2}a{case 3}b{default}c{/switch}", data.Map{"x": data.Int(2)}))
 	add(mk("css", " * @param s\n", "{css foo}{css $s, bar}", data.Map{"s": data.String("base")}))
@@ -387,6 +388,8 @@ func runC04(e *env) {
 	units = append(units, c04Corpus(e)...)
 	units = append(units, c04Bundles(e, 800*e.scale)...)
 	c04Run(e, units)
+	c04ExprTie(e, 3000*e.scale)
+	c04EscapeTie(e)
 }
 
 func c04Replay(e *env) {
